@@ -192,11 +192,18 @@ def extend_from_slice(e, c, a):
 @model(r"vec::from_elem")
 def vec_from_elem(e, c, a):
     n = a[1]
+    lim = getattr(e, "alloc_limit", None)
     if not n.conc():
-        raise Unsupported("vec![x; n] with symbolic n")
-    if n.v > 1 << 20:
-        raise Unsupported(f"vec![x; {n.v}] too large for the model (allocation size)")
-    return VecObj([deep_clone(a[0]) for _ in range(n.v)])
+        if lim is None:
+            raise Unsupported("vec![x; n] with symbolic n")
+        nv = e.concretize(n, lim)
+    else:
+        nv = n.v
+    if lim is not None and nv > lim:
+        raise Panic("alloc_unbounded", "vec::from_elem", f"allocation of {nv if n.conc() else '> ' + str(lim)} elements is not bounded by the input size ({lim})")
+    if nv > 1 << 20:
+        raise Unsupported(f"vec![x; {nv}] too large for the model (allocation size)")
+    return VecObj([deep_clone(a[0]) for _ in range(nv)])
 
 
 @model(r"^Box::<.*>::new_uninit$")
@@ -928,6 +935,12 @@ def default_value(e, ty):
         return UNIT
     if ty.startswith("Option<"):
         return none()
+    base = ty.split("<")[0].split("::")[-1]
+    if base in ("HashMap", "BTreeMap", "AHashMap", "HashSet", "BTreeSet", "AHashSet"):
+        from .models_coll import MapObj
+        return MapObj("BTree" in base, "Set" in base)
+    if base == "VecDeque":
+        return VecObj([])
     raise Unsupported("Default for " + ty)
 
 
